@@ -19,6 +19,9 @@ def run(ctx):
                         "and the test compares sizeof(MessageHeader) + payload length with the free bytes")
     res.rule("C08-R5", "batch order: encode walks the range once, forwards, one putPacket per element; the frame list is only appended to")
     res.rule("C08-R6", "every message header written into a frame gets its segment type and payload length set after the raw header copy, on every path")
+    res.rule("C08-R7", "a frame is built with this call's sizes and every chunk is cut at full width: frame template, free count and min/max are "
+                        "(re)defined from this call's DataContext before use (shared with C10-R2/C07-R7); the room `free - 16` reaches min() "
+                        "without narrowing and every write lands inside the frame (shared with C07-R6)")
     res.not_decided += ["'fits => appended', 'segment alone in its frame', 'all but last fill to max' (depend on run-time sizes)"]
     E.rule_flag_table(res, "C08-R1", m)
     obs, _ = accessors.analyse(fb, ctx.spec("layout.json"))
@@ -29,6 +32,9 @@ def run(ctx):
     n4 = E.rule_fit_decided_on_fresh_frame(res, "C08-R4", m)
     E.rule_batch_order(res, "C08-R5", m)
     E.rule_header_fully_stamped(res, "C08-R6", m)
+    E.rule_state_reset(res, "C08-R7", "C08-R7", m)
+    E.rule_writes_inside_frame(res, "C08-R7", m)
+    res.floor("C08-R7", 20)
     res.floor("C08-R1", 4)
     res.floor("C08-R2", 12)
     res.floor("C08-R3", 1)
